@@ -231,7 +231,9 @@ def work_store(ctx, item):
             ctx.violation('api.get_basis[get_aux]', 'representation', 'get_aux=%d differs with make_general' % aux, {'kind': 'get_aux', 'name': name})
         # with augmentation: the auxiliary basis of the augmented orbital basis
         from basis_set_exchange import manip
-        for kw in ({'augment_diffuse': 1}, {'augment_steep': 1, 'make_general': True}):
+        # ... and with the options that change the function space: the auxiliary basis of what get_basis returns with them
+        for kw in ({'augment_diffuse': 1}, {'augment_steep': 1, 'make_general': True}, {'uncontract_segmented': True},
+                   {'remove_free_primitives': True}, {'uncontract_general': True, 'uncontract_spdf': True}):
             o = impl.call(bse.get_basis, name, version=version, elements=list(b['elements']), **kw)
             g = impl.call(bse.get_basis, name, version=version, elements=list(b['elements']), get_aux=aux, **kw)
             if o[0] != 'ok':
@@ -239,7 +241,7 @@ def work_store(ctx, item):
             w = impl.call(manip.autoaux_basis if aux == 1 else manip.autoabs_basis, o[1])
             ctx.case((name, version, 'get_aux+augment', aux, tuple(kw)), True, 'get_aux+augment')
             if w[0] != g[0] or (w[0] == 'ok' and w[1]['elements'] != g[1]['elements']):
-                ctx.violation('api.get_basis[get_aux]', 'augmented', 'get_basis(get_aux=%d, %s) is not the auxiliary basis of the augmented orbital basis' % (aux, kw),
+                ctx.violation('api.get_basis[get_aux]', 'augmented', 'get_basis(get_aux=%d, %s) is not the auxiliary basis of the orbital basis get_basis returns with these options' % (aux, kw),
                               {'kind': 'get_aux', 'name': name, 'version': version})
 
 
